@@ -47,7 +47,7 @@ func c04seqExec(input string) string {
 }
 
 // layout choices of one re-rendering
-type c04Layout struct {
+type c04seqLayout struct {
 	g        *hx.Gen
 	blank    float64 // probability of blank lines at an eligible site
 	trail    float64 // probability of trailing blanks on a line
@@ -58,7 +58,7 @@ type c04Layout struct {
 	lastTerm int // length of the terminator written last
 }
 
-func (l *c04Layout) term() {
+func (l *c04seqLayout) term() {
 	if l.g.Chance(l.crlf) {
 		l.out.WriteString("\r\n")
 		l.lastTerm = 2
@@ -69,24 +69,24 @@ func (l *c04Layout) term() {
 	}
 }
 
-func (l *c04Layout) blanks() {
+func (l *c04seqLayout) blanks() {
 	for l.g.Chance(l.blank) {
-		l.out.WriteString(pickS(l.g, "", "", " ", "\t", " \t ", "\v", "\f"))
+		l.out.WriteString(sioPickS(l.g, "", "", " ", "\t", " \t ", "\v", "\f"))
 		l.term()
 		l.tags["blank"] = true
 	}
 }
 
-func (l *c04Layout) line(content []byte) {
+func (l *c04seqLayout) line(content []byte) {
 	l.out.Write(content)
 	if l.g.Chance(l.trail) {
-		l.out.WriteString(pickS(l.g, " ", "\t", "  ", " \t", "\v", "\f", " \r", "\r"))
+		l.out.WriteString(sioPickS(l.g, " ", "\t", "  ", " \t", "\v", "\f", " \r", "\r"))
 		l.tags["trail"] = true
 	}
 	l.term()
 }
 
-func (l *c04Layout) finish() []byte {
+func (l *c04seqLayout) finish() []byte {
 	b := l.out.Bytes()
 	if l.nofinal && l.lastTerm > 0 && len(b) >= l.lastTerm {
 		b = b[:len(b)-l.lastTerm]
@@ -95,7 +95,7 @@ func (l *c04Layout) finish() []byte {
 	return b
 }
 
-func (l *c04Layout) tagList() string {
+func (l *c04seqLayout) tagList() string {
 	var ts []string
 	for _, t := range []string{"wrap", "blank", "trail", "crlf", "nofinal", "buffer-multiple"} {
 		if l.tags[t] {
@@ -108,8 +108,8 @@ func (l *c04Layout) tagList() string {
 	return strings.Join(ts, ",")
 }
 
-func c04NewLayout(g *hx.Gen) *c04Layout {
-	l := &c04Layout{g: g, tags: map[string]bool{}}
+func c04seqNewLayout(g *hx.Gen) *c04seqLayout {
+	l := &c04seqLayout{g: g, tags: map[string]bool{}}
 	if g.Chance(0.5) {
 		l.blank = float64(g.Pick(10, 30, 50)) / 100
 	}
@@ -134,11 +134,11 @@ func sioHeader(prefix byte, r sioRec) []byte {
 	return h
 }
 
-func c04Fasta(g *hx.Gen) {
+func c04seqFasta(g *hx.Gen) {
 	alpha := sioAlphabets[g.Intn(len(sioAlphabets))]
 	width := sioWidth(g)
 	rs := sioRecords(g, alpha, width, false, alphabet.Sanger, 4)
-	l := c04NewLayout(g)
+	l := c04seqNewLayout(g)
 	mode := g.Intn(5)
 	if g.Chance(0.08) && len(rs) > 0 {
 		// the last physical line fills bufio's buffer exactly (a multiple of 4096 bytes)
@@ -200,7 +200,7 @@ func c04Fasta(g *hx.Gen) {
 	g.Casef("fa4 %s %s %s", l.tagList(), hx.Hex(a), hx.Hex(b))
 }
 
-func c04Fastq(g *hx.Gen) {
+func c04seqFastq(g *hx.Gen) {
 	alpha := sioAlphabets[g.Intn(len(sioAlphabets))]
 	typ, tmpl := "q", ""
 	enc := sioPhredEncodings[g.Intn(len(sioPhredEncodings))]
@@ -210,7 +210,7 @@ func c04Fastq(g *hx.Gen) {
 		tmpl = fmt.Sprint(int(enc))
 	}
 	rs := sioRecords(g, alpha, g.Pick(1, 50, 100, 4096), typ == "q", enc, 4)
-	l := c04NewLayout(g)
+	l := c04seqNewLayout(g)
 	if g.Chance(0.08) && len(rs) > 0 {
 		k := g.Pick(4096, 4096, 8192)
 		last := &rs[len(rs)-1]
@@ -254,9 +254,9 @@ func c04seqGen(g *hx.Gen) {
 	n := g.Scale(8000, 150000)
 	for k := 0; k < n && !g.Done(); k++ {
 		if g.Chance(0.55) {
-			c04Fasta(g)
+			c04seqFasta(g)
 		} else {
-			c04Fastq(g)
+			c04seqFastq(g)
 		}
 	}
 }
